@@ -368,8 +368,8 @@ def c01(ctx):
     suite_email(ctx, 2, 0, optbits=1)      # the mode-6531 rules are a build-time choice; the decision rule is the same
     suite_email(ctx, 2, 0, optbits=2)
     suite_ip(ctx, 2, 0)
-    suite_email(ctx, 1, 5 if ctx.quick() else 6)
-    suite_recorded(ctx, *((800, 800, 80) if ctx.quick() else (6000, 6000, 300)))
+    suite_email(ctx, 1, 5 if ctx.quick() else 7)
+    suite_recorded(ctx, *((800, 800, 80) if ctx.quick() else (12000, 12000, 600)))
     return finish(ctx, "model_checking",
                   "TLC enumerates addresses: all strings over {a . @ \" [ ] 1 :} up to MaxLen and families (local-part pool x domain pool, "
                   "local parts of 58..70 octets, several '@'); per (mode, tld_check) layer P pins decision/code/flag; each vector is "
@@ -1077,7 +1077,7 @@ def c14(ctx):
                 if line.startswith('"[5,'):
                     f.write(line)
     sample_vectors(ctx, vec)
-    for variant, nth, rounds in (("tsan", 4 if q else 16, 1 if q else 2), ("default", 8 if q else 16, 3 if q else 20)):
+    for variant, nth, rounds in (("tsan", 4 if q else 16, 1 if q else 4), ("default", 8 if q else 16, 3 if q else 40)):
         bb = build(ctx, variant, 0)
         exe = vlib.compile_driver(ctx, bb, "threads.c")
         od = ctx.path("threads-" + variant, "x")[:-2]
@@ -1282,7 +1282,7 @@ def c19(ctx):
 def c04(ctx):
     suite_host(ctx, 2, 0)
     suite_host(ctx, 2, 0, optbits=4)        # "underscore too, only when built with LABELS_ALLOW_UNDERSCORE"
-    suite_host(ctx, 1, 6 if ctx.quick() else 8)
+    suite_host(ctx, 1, 6 if ctx.quick() else 9)
     suite_wmethod(ctx, "host", variants=("default", "latin1"))     # every byte in every state of the host-name automaton (label / name counters), x W
     suite_wmethod(ctx, "host", optbits=4)
     suite_recorded(ctx, *((800, 600, 80) if ctx.quick() else (6000, 5000, 300)))
@@ -1294,7 +1294,7 @@ def c04(ctx):
 
 def c05(ctx):
     suite_ip(ctx, 2, 0)
-    suite_ip(ctx, 1, 5 if ctx.quick() else 7)
+    suite_ip(ctx, 1, 5 if ctx.quick() else 8)
     suite_wmethod(ctx, "ip")                   # structure bytes (thorough: every byte) in every state of the literal automaton, x W
     return finish(ctx, "model_checking",
                   "TLC enumerates domain parts '[...]': bracket content over {1,0,2,5,a,g,':','.'} up to MaxLen and families "
@@ -1350,8 +1350,8 @@ def c02(ctx):
     if ctx.quick():
         suite_local(ctx, 2, 5)
     else:
-        suite_local(ctx, 1, 5)
-        suite_local(ctx, 2, 6)
+        suite_local(ctx, 1, 6)      # 15 symbols, 12.2 M local parts
+        suite_local(ctx, 2, 7)      # 10 symbols, 11.1 M local parts
     suite_sweep(ctx, 1, variants=("default", "uchar", "latin1"))   # also where plain char is unsigned (ARM, PowerPC), and when the
     # calling process has switched to a single-byte locale in which bytes >= 0x80 are letters
     suite_wmethod(ctx, "local", variants=("default", "latin1"))    # every byte in every state of the grammar automaton, x W
@@ -1368,8 +1368,8 @@ def c03(ctx):
         suite_local(ctx, 4, 6)
         suite_local(ctx, 3, 4)
     else:
-        suite_local(ctx, 4, 7)
-        suite_local(ctx, 3, 5)
+        suite_local(ctx, 4, 8)      # 7 symbols, 6.7 M local parts
+        suite_local(ctx, 3, 6)      # 12 chunks, 3.3 M local parts
         suite_local(ctx, 1, 5)
     suite_sweep(ctx, 1, variants=("default", "uchar"))
     suite_sweep(ctx, 2, full=not ctx.quick(), variants=("default", "uchar", "latin1"))
